@@ -42,7 +42,7 @@ type loopInfo struct {
 }
 
 type FnCtx struct {
-	entryLocks map[string]string // lock arrays at entry for locks declared `entry-held`
+	entryLocks       map[string]string // lock arrays at entry for locks declared `entry-held`
 	lazyAx           map[*Axiom]int
 	eng              *Engine
 	fn               *ssa.Function
